@@ -58,7 +58,7 @@ func VerifC10_GatewayClass() {
 		controller: []string{"", "k", "z"}[nd.Choice("class.controller", 3)],
 	}
 	hasV1 := nd.Bool("hasGatewayV1")
-	cache := &c{ctx: context.Background(), client: cl, config: &config.Config{ControllerName: "k", HasGatewayV1: hasV1}}
+	cache := createCacheFacade(context.Background(), cl, &config.Config{ControllerName: "k", HasGatewayV1: hasV1}, nil, nil, nil, nil)
 	gw, err := cache.GetGateway("gwns", "gw")
 	ours := hasV1 && !cl.gwErr && cl.gwFound && !cl.classErr && cl.classFound && cl.controller == "k"
 	if err == nil && gw != nil {
